@@ -51,7 +51,7 @@ def all_workers(cluster):
 
 # ----------------------------------------------------------------------------- profiles
 @st.composite
-def strategy_for(draw, cluster, feasible=True, max_runtime=12, zero_runtime=False, contention=False, zero_quantity=False):
+def strategy_for(draw, cluster, feasible=True, max_runtime=12, zero_runtime=False, contention=False, zero_quantity=False, ms_runtime=False):
     workers = all_workers(cluster)
     if feasible:
         w = draw(st.sampled_from(workers))
@@ -74,6 +74,8 @@ def strategy_for(draw, cluster, feasible=True, max_runtime=12, zero_runtime=Fals
         if extra not in res:
             res = {extra: 0, **res}
     lo = 0 if zero_runtime else 1
+    if ms_runtime and draw(st.integers(0, 5)) == 0:
+        return {"runtime": 1000 * draw(st.integers(1, 2)), "resources": res, "batch": 1}  # built as EventTime(k, MS)
     return {"runtime": draw(st.integers(lo, max_runtime)), "resources": res, "batch": 1}
 
 
@@ -321,6 +323,7 @@ def worlds(
     zero_runtime=False,
     single_worker_pools=False,
     zero_quantity=False,
+    ms_runtime=False,
     max_pools=3,
     max_workers=3,
     max_runtime=12,
@@ -331,7 +334,7 @@ def worlds(
     feas = draw(st.sampled_from([True, True, True, False])) if feasible is None else feasible
     n_prof = draw(st.integers(1, 4))
     profiles = [
-        draw(profile_for(cluster, f"pr{i}", feasible=feas, max_runtime=max_runtime, zero_runtime=zero_runtime, contention=contention, zero_quantity=zero_quantity))
+        draw(profile_for(cluster, f"pr{i}", feasible=feas, max_runtime=max_runtime, zero_runtime=zero_runtime, contention=contention, zero_quantity=zero_quantity, ms_runtime=ms_runtime))
         for i in range(n_prof)
     ]
     n_graphs = draw(st.integers(1, max_graphs))
